@@ -783,13 +783,15 @@ where
             Code::RelativeID | Code::Relative1 => {
                 let min_level = std::cmp::min(t_level, e_level);
                 let child_min_suppvar = if min_level == LevelNo::MAX {
-                    level_suppvar_map.len()
+                    // terminals are treated as if they were below the last
+                    // support variable
+                    suppvar_level_map.len()
                 } else {
                     level_suppvar_map[min_level as usize] as usize
                 };
                 match child_min_suppvar.checked_sub(vid) {
-                    Some(v) => v,
-                    None => return err("variable ID out of range"),
+                    Some(v) if v < suppvar_level_map.len() => v,
+                    _ => return err("variable ID out of range"),
                 }
             }
         };
